@@ -824,3 +824,88 @@ Example C16_high_window_by_theorem :
   forall t k r v, In (ERet t k r v) (cD_log Salsa.CFetchD.ExamplesWindow.sw) ->
   v = ED Salsa.CFetchD.ExamplesWindow.Qw Salsa.CFetchD.ExamplesWindow.rankw r k.
 Proof. exact Salsa.CFetchD.ExamplesStatic.sw_values_from_theorem. Qed.
+
+(* ------------------------------------------------------------------------------------------
+   DYNAMIC READ PATHS AND DURABILITY-CHANGING REVISIONS, ALL LEVELS — `_partial` (stage 14;
+   CFetchD/ProofsLevels.v): [static_paths] and [const_dur] of stage 13 are dropped.  What is
+   required instead: STATIC SEMANTIC LEVELS — a map L such that, in every revision, L k is the
+   minimum over the edges of k's read path of the durability of the input read, resp. of L of the
+   key called (DUR_MAX for an empty path).  Which inputs and keys are read may depend on values
+   and on the revision, durabilities may change; only that minimum may not.  Then the recorded
+   durability of every memo is EXACTLY L of its key (the accumulated minimum is exact: [framT]),
+   so the observer inequality [o_dur m <= o_dur md] of Core/DInv.v holds statically, and the
+   stage-13 argument (seen closed over the call closure, window theorem for the whole closure)
+   goes through with the window theorem providing the path equalities.
+   GAP (C16_values_computed_shortcut_full_statement): programs whose semantic level depends on
+   the path or the revision — the observer clause proper ([mo_obs] with the stable-window
+   disjunct, [mo_stamp], [ext_mono], [frame_dur_lb], [frame_changed_lb]) and the stamped-durability
+   hypothesis; not ported. *)
+From Salsa.CFetchD Require ProofsLevels ExamplesLevels.
+
+Theorem C16_values_computed_shortcut_static_levels_partial :
+  forall fuel Q rank (L : key -> dur) s t k r v,
+  Salsa.CFetchD.ProofsRel.rankedD Q rank -> Salsa.CFetchD.ProofsRel.stampsD_ok Q -> no_never Q ->
+  (forall r0 k0, L k0 = fold_right (fun e acc => N.min (match e with EIn i => d_idur Q r0 i | ECall c => L c end) acc)
+                          DUR_MAX (Salsa.CFetchD.ProofsRel.readsb (ED Q rank r0) (d_in Q r0) (d_body Q k0))) ->
+  (forall r0 d d', d <= d' -> d_lc Q r0 d' <= d_lc Q r0 d) ->
+  (forall r0 r' d, r0 <= r' -> d_lc Q r0 d <= d_lc Q r' d) ->
+  (forall r1 r0 i, r0 <= r1 -> d_lc Q r1 (d_idur Q r0 i) <= r0 ->
+     d_in Q r1 i = d_in Q r0 i /\ d_stamp Q r1 i = d_stamp Q r0 i /\ d_idur Q r1 i = d_idur Q r0 i) ->
+  creachD fuel Q true s ->
+  In (ERet t k r v) (cD_log s) -> v = ED Q rank r k.
+Proof. exact Salsa.CFetchD.ProofsLevels.values_computed_shortcut. Qed.
+
+Check C16_values_computed_shortcut_static_levels_partial :
+  forall fuel Q rank (L : key -> dur) s t k r v,
+  Salsa.CFetchD.ProofsRel.rankedD Q rank -> Salsa.CFetchD.ProofsRel.stampsD_ok Q -> no_never Q ->
+  (forall r0 k0, L k0 = fold_right (fun e acc => N.min (match e with EIn i => d_idur Q r0 i | ECall c => L c end) acc)
+                          DUR_MAX (Salsa.CFetchD.ProofsRel.readsb (ED Q rank r0) (d_in Q r0) (d_body Q k0))) ->
+  (forall r0 d d', d <= d' -> d_lc Q r0 d' <= d_lc Q r0 d) ->
+  (forall r0 r' d, r0 <= r' -> d_lc Q r0 d <= d_lc Q r' d) ->
+  (forall r1 r0 i, r0 <= r1 -> d_lc Q r1 (d_idur Q r0 i) <= r0 ->
+     d_in Q r1 i = d_in Q r0 i /\ d_stamp Q r1 i = d_stamp Q r0 i /\ d_idur Q r1 i = d_idur Q r0 i) ->
+  creachD fuel Q true s ->
+  In (ERet t k r v) (cD_log s) -> v = ED Q rank r k.
+Print Assumptions C16_values_computed_shortcut_static_levels_partial.
+
+Theorem C16_memo_writes_sound_shortcut_static_levels_partial :
+  forall fuel Q rank (L : key -> dur) s k m,
+  Salsa.CFetchD.ProofsRel.rankedD Q rank -> Salsa.CFetchD.ProofsRel.stampsD_ok Q -> no_never Q ->
+  Salsa.CFetchD.ProofsLevels.static_levels Q rank L ->
+  Salsa.CFetchD.ProofsWindow.lc_antitone Q -> Salsa.CFetchD.ProofsLevels.lc_mono Q ->
+  Salsa.CFetchD.ProofsWindow.write_rule Q ->
+  creachD fuel Q true s ->
+  cD_memo s k = Some m -> o_val m = ED Q rank (o_ver m) k.
+Proof. exact Salsa.CFetchD.ProofsLevels.memo_sound_shortcut. Qed.
+
+Check C16_memo_writes_sound_shortcut_static_levels_partial :
+  forall fuel Q rank (L : key -> dur) s k m,
+  Salsa.CFetchD.ProofsRel.rankedD Q rank -> Salsa.CFetchD.ProofsRel.stampsD_ok Q -> no_never Q ->
+  Salsa.CFetchD.ProofsLevels.static_levels Q rank L ->
+  Salsa.CFetchD.ProofsWindow.lc_antitone Q -> Salsa.CFetchD.ProofsLevels.lc_mono Q ->
+  Salsa.CFetchD.ProofsWindow.write_rule Q ->
+  creachD fuel Q true s ->
+  cD_memo s k = Some m -> o_val m = ED Q rank (o_ver m) k.
+Print Assumptions C16_memo_writes_sound_shortcut_static_levels_partial.
+
+(* non-vacuity with a DYNAMIC path (CFetchD/ExamplesLevels.v, Qv): key 4 reads the LOW input and,
+   depending on its value, calls key 3 only or keys 2 and 3 — its recorded path changes from
+   [EIn 2; ECall 3] to [EIn 2; ECall 2; ECall 3] — while key 3 (HIGH, level 2) is served through
+   the short-cut in revision 2 and executed again after the HIGH write; hypotheses proved, values
+   by the theorem and by computation *)
+Example C16_dynamic_levels_witness :
+  Salsa.CFetchD.ProofsLevels.static_levels Salsa.CFetchD.ExamplesLevels.Qv Salsa.CFetchD.ExamplesWindow.rankw
+    Salsa.CFetchD.ExamplesLevels.Lv /\
+  creachD 8 Salsa.CFetchD.ExamplesLevels.Qv true Salsa.CFetchD.ExamplesLevels.sv /\
+  (forall t k r v, In (ERet t k r v) (cD_log Salsa.CFetchD.ExamplesLevels.sv) ->
+     v = ED Salsa.CFetchD.ExamplesLevels.Qv Salsa.CFetchD.ExamplesWindow.rankw r k) /\
+  deps_of (Salsa.CFetchD.ExamplesLevels.lenv true Salsa.CFetchD.ExamplesWindow.prew cinitD) 4
+    = Some (1, 1, 0, [EIn 2; ECall 3]) /\
+  deps_of Salsa.CFetchD.ExamplesLevels.sv 4 = Some (3, 3, 0, [EIn 2; ECall 2; ECall 3]) /\
+  (count_exec 3 1 (cD_log Salsa.CFetchD.ExamplesLevels.sv), count_exec 3 2 (cD_log Salsa.CFetchD.ExamplesLevels.sv),
+   count_exec 3 3 (cD_log Salsa.CFetchD.ExamplesLevels.sv)) = (1, 0, 1)%nat.
+Proof.
+  destruct Salsa.CFetchD.ExamplesLevels.sv_run as (_ & D1 & D2 & C).
+  exact (conj Salsa.CFetchD.ExamplesLevels.static_levelsv (conj Salsa.CFetchD.ExamplesLevels.sv_reachable
+        (conj Salsa.CFetchD.ExamplesLevels.sv_values_from_theorem (conj D1 (conj D2 C))))).
+Qed.
